@@ -57,6 +57,8 @@ class ModelNode(renew.Mold):
 
     def __init__(self, name, value, docstring=None):
         self.name = _check_string(name, "model node name")
+        if self.name is not None and "\n" in self.name:
+            raise ModelError("Line break in model node name: {!r}.".format(self.name))
         self._value = value
         self.docstring = _check_string(docstring, "doc string")
 
